@@ -1,10 +1,20 @@
 #!/bin/bash
-# Offline set-up: nothing to build (pure Python on /venv); verify the toolchain
-# and run a small determinism self-test.
-set -e
+# Offline set-up: nothing to build (pure Python on /venv).  Verifies the Python
+# dependencies, builds the ring pre-image tables, runs the determinism self-test.
 cd "$(dirname "$0")"
-/venv/bin/python -c "import twisted, cachetools, six; print('deps ok: twisted', twisted.__version__)"
-mkdir -p evidence replays
-if [ -f sim/selftest.py ]; then
-  ./check selftest --runs 6
+/venv/bin/python -c "import twisted, cachetools, six; print('deps ok: twisted', twisted.__version__)" || exit 1
+mkdir -p evidence replays build
+PYTHONHASHSEED=0 /venv/bin/python -c "
+import sys; sys.path.insert(0, '.')
+from sim.props import routeprops
+for ht in ('carbon_ch', 'fnv1a_ch'):
+    routeprops.preimage(ht)
+print('pre-image tables ready')" || exit 1
+# Determinism self-test: informative, never fatal for the set-up (a failure is
+# reported loudly; the checks themselves do not depend on it).
+if ./check selftest --runs 6 --groups 2; then
+  echo "setup: determinism self-test passed"
+else
+  echo "setup: WARNING determinism self-test reported a mismatch (see above)"
 fi
+exit 0
